@@ -197,6 +197,12 @@ class Seq(Kind):
         st.assume(c == term)
         return c
 
+    def as_const(self, st, term):
+        """A constant equal to the list term (terms with ite / store cannot occur in quantifier patterns)."""
+        if z3.is_const(term) and term.decl().kind() == z3.Z3_OP_UNINTERPRETED:
+            return term
+        return self.named(st, term)
+
     def lemma_append(self, new, old, y):
         x = z3.Const(fresh_name("lx"), self.elem.sort())
         mem = self.mem_fn()
@@ -221,23 +227,11 @@ class Seq(Kind):
         USED_MEM[str(self.elem.sort())] = self
         return z3.ForAll([x], z3.Implies(mem(new, x), mem(old, x)), patterns=[mem(new, x)])
 
-    def sub(self, t, lo, n):
-        i = z3.Const(fresh_name("si"), z3.IntSort())
-        return self.mk(n, z3.Lambda([i], z3.Select(self.arr(t), i + lo)))
-
-    def without(self, t, k):
-        """The list with the element at index k removed."""
-        i = z3.Const(fresh_name("ri"), z3.IntSort())
-        return self.mk(self.len(t) - 1, z3.Lambda([i], z3.If(i < k, z3.Select(self.arr(t), i), z3.Select(self.arr(t), i + 1))))
-
-    def equal(self, a, b):
-        i = z3.Const(fresh_name("ei"), z3.IntSort())
-        return z3.And(self.len(a) == self.len(b),
-                      z3.ForAll([i], z3.Implies(z3.And(0 <= i, i < self.len(a)),
-                                                z3.Select(self.arr(a), i) == z3.Select(self.arr(b), i))))
-
 
 class SetK(Kind):
+    """Python sets as characteristic arrays. Derived sets are fresh constants with a triggered definition
+    (the `map` combinators of z3's set operations interact badly with quantifiers)."""
+
     def __init__(self, elem):
         self.elem = elem
 
@@ -246,6 +240,43 @@ class SetK(Kind):
 
     def __repr__(self):
         return f"Set({self.elem})"
+
+    def empty(self):
+        return z3.EmptySet(self.elem.sort())
+
+    def define(self, st, body, base="set", sources=()):
+        """Fresh set C with forall x. C[x] == body(x); triggered on C[x] and on membership in the sources."""
+        C = z3.Const(fresh_name(base), self.sort())
+        x = z3.Const(fresh_name("sx"), self.elem.sort())
+        st.assume(z3.ForAll([x], z3.Select(C, x) == body(x), patterns=[z3.Select(C, x)]))
+        for src in sources:
+            try:
+                st.assume(z3.ForAll([x], z3.Select(C, x) == body(x), patterns=[z3.Select(src, x)]))
+            except z3.Z3Exception:
+                pass
+        return C
+
+    def union(self, st, a, b):
+        return self.define(st, lambda x: z3.Or(z3.Select(a, x), z3.Select(b, x)), "union", [a, b])
+
+    def inter(self, st, a, b):
+        return self.define(st, lambda x: z3.And(z3.Select(a, x), z3.Select(b, x)), "inter", [a, b])
+
+    def diff(self, st, a, b):
+        return self.define(st, lambda x: z3.And(z3.Select(a, x), z3.Not(z3.Select(b, x))), "diff", [a])
+
+    def literal(self, st, terms):
+        if not terms:
+            return self.empty()
+        return self.define(st, lambda x: z3.Or([x == t for t in terms]), "setlit")
+
+    def subset(self, a, b):
+        x = z3.Const(fresh_name("sx"), self.elem.sort())
+        return z3.ForAll([x], z3.Implies(z3.Select(a, x), z3.Select(b, x)), patterns=[z3.Select(a, x)])
+
+    def equal(self, a, b):
+        x = z3.Const(fresh_name("sx"), self.elem.sort())
+        return z3.ForAll([x], z3.Select(a, x) == z3.Select(b, x))
 
 
 _MAP_SORTS = {}
